@@ -142,14 +142,21 @@ def r4(ctx, rep):
     rep.rule("C18.R4", "the option's dialect is passed through sql::compile and translate_query unchanged", floor=2)
     syn = ctx.syn
     c = syn.fn("sql::compile", crate="prqlc", file_suffix="sql/mod.rs")
-    first = c["body"]["s"][0]
-    ok = first.get("k") == "local" and show(first["pat"]) == "crate::Target::Sql(dialect)" and show(first["init"]) == "options.target"
+    # the value handed to translate_query is the very binding of the destructured options.target: a later `let dialect = f(dialect)`
+    # would be inlined here and no longer render as the bare name
+    import alpha
+    Ac = alpha.Inliner(c)
+    destr = [st for st in c["body"]["s"] if st.get("k") == "local" and st["pat"].get("k") == "p_ts" and last_seg(st["pat"]["p"]) == "Sql" and show(st.get("init")) == "options.target"]
+    bound = [x["n"] for x in walk(destr[0]["pat"]) if x.get("k") == "p_ident"] if destr else []
+    ok = len(destr) == 1 and len(bound) == 1
     call = [n for n in walk(c["body"]) if n.get("k") == "call" and last_seg(show(n["f"])) == "translate_query"]
-    rep.check(ok and len(call) == 1 and [show(a) for a in call[0]["a"]] == ["query", "dialect"], "compile",
+    rep.check(ok and len(call) == 1 and len(call[0]["a"]) == 2 and Ac.show(call[0]["a"][1]) == bound[0], "compile",
               "sql::compile must destructure options.target and hand its dialect to translate_query", file=c["file"], line=c["l"], fn=c["path"])
     t = syn.fn("gen_query::translate_query", crate="prqlc", file_suffix="sql/gen_query.rs")
     call = [n for n in walk(t["body"]) if n.get("k") == "call" and last_seg(show(n["f"])) == "compile_query"]
-    rep.check(len(call) == 1 and [show(a) for a in call[0]["a"]] == ["query", "dialect"], "translate_query",
+    At = alpha.Inliner(t)
+    tp = [p_["name"] for p_ in t.get("params", []) if isinstance(p_, dict) and "name" in p_]
+    rep.check(len(call) == 1 and len(tp) >= 2 and [At.show(a) for a in call[0]["a"]] == tp[:2], "translate_query",
               "translate_query must hand its dialect argument to compile_query unchanged", file=t["file"], line=t["l"], fn=t["path"])
     # lib.rs entry points pass options through
     for name in ("compile", "rq_to_sql"):
